@@ -205,6 +205,12 @@ MUTANTS = [
      "        if sorted_times[mid] < target_time:\n            result = sorted_times[mid]", "        if sorted_times[mid] <= target_time:\n            result = sorted_times[mid]", "binary_search"),
     ("C05", "unified_planning/engines/plan_validator.py",
      "            result = sorted_times[mid]\n            left = mid + 1\n        else:\n            right = mid - 1", "            result = sorted_times[mid]\n            left = mid + 1\n        else:\n            right = mid - 2", "binary_search"),
+    ("C05", "unified_planning/engines/plan_validator.py",
+     "            else action_start_time + action_duration\n        )\n        makespan = max(makespan, action_end)", "            else action_start_time + action_duration\n        )\n        makespan = max(makespan, action_start_time)", "_extract_makespan"),
+    ("C05", "unified_planning/engines/plan_validator.py",
+     "        if effect_timing.is_from_start():\n            makespan = max(makespan, effect_timing.delay)", "        makespan = max(makespan, effect_timing.delay)", "_extract_makespan"),
+    ("C05", "unified_planning/engines/plan_validator.py",
+     "        if goal_interval.upper.is_from_end():\n            interval_bound = goal_interval.lower", "        if goal_interval.upper.is_from_start():\n            interval_bound = goal_interval.lower", "_extract_makespan"),
     ("C11", "unified_planning/model/walkers/simplifier.py",
      "            return self.manager.Bool(not l)", "            return self.manager.Bool(l)", "walk_not"),
 ]
